@@ -112,6 +112,7 @@ func (vc *VC) Run() {
 	} else {
 		vc.sweep = true
 	}
+	vc.tailDup = vc.con != nil && vc.con.TailDup
 	vc.findAddrTaken()
 	st := &State{pc: True, vars: map[types.Object]Val{}, heaps: map[string]*Term{}}
 	vc.entry = &State{pc: True, vars: map[types.Object]Val{}, heaps: map[string]*Term{}}
